@@ -63,7 +63,7 @@ def integer(ctx, world, ev):
     # H2/H3 password_to_scalar
     outs = ev.run_method(g, "password_to_scalar", [pw], st=st.fork())
     rets = session.rets(outs)
-    ctx.require(rets, "%s.password_to_scalar has no returning path" % gname)
+    ctx.total(rets, outs, "H-total", "%s.password_to_scalar has no returning path" % gname)
     ssz = gm.attr_of(ev, g, "scalar_size_bytes", st)
     from .c15 import is_width
     okw = is_width(ssz, q, {(t, p_) for (t, p_, _) in st.pc})
@@ -83,7 +83,7 @@ def integer(ctx, world, ev):
     seed = Sym("seed", "bytes")
     outs = ev.run_method(g, "arbitrary_element", [seed], st=st.fork())
     rets = session.rets(outs)
-    ctx.require(rets, "%s.arbitrary_element has no returning path" % gname)
+    ctx.total(rets, outs, "H-total", "%s.arbitrary_element has no returning path" % gname)
     esz = gm.attr_of(ev, g, "element_size_bytes", st)
     for o in rets:
         ctx.require(isinstance(o.value, Obj), "arbitrary_element does not return an element object")
@@ -118,7 +118,7 @@ def ed25519(ctx, world, ev):
     pw = Sym("pw", "bytes")
     outs = ev.run_method(G, "password_to_scalar", [pw], st=world.static.fork())
     rets = session.rets(outs)
-    ctx.require(rets, "Ed25519 password_to_scalar has no returning path")
+    ctx.total(rets, outs, "H-total", "Ed25519 password_to_scalar has no returning path")
     for o in rets:
         v = o.value
         shape = is_app(v, "Mod") and v.args[1] == L and is_app(v.args[0], "be2int") and is_app(v.args[0].args[0], ".derive")
@@ -151,7 +151,7 @@ def ed25519(ctx, world, ev):
     e2.policy.force_inline.add(f.qual)
     outs = e2.run(f, [seed], [], world.static.fork())
     rets = session.rets(outs)
-    ctx.require(rets, "Ed25519 arbitrary_element has no returning path in one iteration")
+    ctx.total(rets, outs, "H-total", "Ed25519 arbitrary_element has no returning path in one iteration")
     forms = gm.formula_functions(world, ev)
     complete = {k for k, v in forms.items() if v.get("kind") == "add-complete"}
     dedicated = {k for k, v in forms.items() if v.get("kind") == "add-dedicated"}
@@ -223,6 +223,13 @@ def ed25519(ctx, world, ev):
         idt = [(t, p) for (t, p) in conds if isinstance(t, App) and t.f.startswith("fn:") and len(t.args) == 1
                and gm.func_by_qual(world, t.f[3:]) is not None and gm.identity_test_ok(world, ev, gm.func_by_qual(world, t.f[3:]))[0]]
         skip = any(p is False and t.args[0] == coords[0] for (t, p) in idt)
+        seen_ = set()
+        for (t, p) in idt:
+            # the identity test must see the identity: a coordinate it compares unreduced has to arrive normalised
+            for (i_, ok_, detail_, site_) in gm.identity_repr_obligations(world, ev, t):
+                if i_ not in seen_:
+                    seen_.add(i_)
+                    ctx.ob("H6-repr", i_, ok_, detail_, site_)
         ctx.ob("H6", "identity skipped", skip, "8*P == identity is skipped (small-order candidates rejected)" if skip else
                "the identity is not excluded", site)
         tors = False
